@@ -1,6 +1,7 @@
 import Txtpp.Lemmas.SinkFacts
 import Txtpp.Lemmas.CleanParse
 import Txtpp.Lemmas.ProjectFacts
+import Txtpp.Lemmas.CleanRestore
 /-!
 # Property C07 — clean removes exactly what build generated and never executes anything
 -/
@@ -83,5 +84,39 @@ theorem other_blocks_clean_noop {W : Type} (Wd : World W) (le : List Char) (s : 
 /-- everything a clean pass leaves untouched keeps its bytes (sources, included files, unrelated files) -/
 theorem clean_keeps_untouched (cfg : Cfg) (fs : FS) (src : Path) (first : Bool) :
     Untouched fs (runPass cfg fs src first).2 := runPass_untouched cfg fs src first
+
+/-- a clean pass over a readable source never fails on directives and never reports dependencies:
+its line loop always ends `ok` -/
+theorem clean_pass_always_ok {W : Type} (Wd : World W) (le : List Char) (first trailing : Bool) (w : W) (lines : List (List Char)) :
+    ∃ out w', ppPass Wd .clean le first trailing w lines true = .ok out w' := clean_pass_ok Wd le first trailing w lines
+
+/-- after a clean pass, neither the source's output nor any (non-`.txtpp`) target of a `temp` block of
+its text exists -/
+theorem clean_pass_removes_output_and_temp_targets (cfg : Cfg) (hm : cfg.mode = .clean) (fs fs' : FS) (src : Path) (first : Bool)
+    (h : runPass cfg fs src first = (.ok, fs')) (p : Path) (content : ByteArray) (hc : fs.file? src = some content)
+    (hp : outputPath src = some p ∨ TempTarget cfg fs src.dropLast (decodeLines (byteLines content.toList)).1 p) :
+    fs'.file? p = none :=
+  clean_runPass_removes cfg hm fs fs' src first h p ⟨content, hc, hp⟩
+
+/-- … and nothing else is changed by it -/
+theorem clean_pass_changes_nothing_else (cfg : Cfg) (fs : FS) (src : Path) (first : Bool) (q : Path)
+    (hq : ¬ ∃ content, fs.file? src = some content ∧
+        (outputPath src = some q ∨ TempTarget cfg fs src.dropLast (decodeLines (byteLines content.toList)).1 q)) :
+    (runPass cfg fs src first).2.file? q = fs.file? q :=
+  (runPass_scope cfg fs src first).2.2 q hq
+
+/-- **build then clean restores the tree (one source).** In a tree where neither the output nor any
+temp target of the source exists, a build pass that ends `ok` followed by a clean pass of the same
+source (same options, mode clean) ends `ok` and leaves every path with exactly the bytes — or the
+absence — it had before the build: clean removes exactly what build generated. (Whole projects: the
+same per source; that clean does not follow `include`/`after` edges to sources that are not inputs
+is the known finding F5.) -/
+theorem build_then_clean_restores_one_source (cfg : Cfg) (hb : cfg.mode = .build) (fs fsB : FS) (src : Path) (first first' : Bool)
+    (hfresh : ∀ p, (∃ content, fs.file? src = some content ∧
+        (outputPath src = some p ∨ TempTarget cfg fs src.dropLast (decodeLines (byteLines content.toList)).1 p)) →
+        fs.file? p = none)
+    (hbuild : runPass cfg fs src first = (.ok, fsB)) :
+    ∃ fsC, runPass cfg.toClean fsB src first' = (.ok, fsC) ∧ ∀ q, fsC.file? q = fs.file? q :=
+  build_then_clean_restores cfg hb fs fsB src first first' hfresh hbuild
 
 end C07
